@@ -252,7 +252,7 @@ def runabs_record(task, rec):
         elif k == "interrupt":
             ev.append({"e": "interrupt", "n": 0, "a": 0, "x": -1})
         elif k == "main_settled":
-            ev.append({"e": "settled", "n": 0, "a": 0, "x": -1})
+            ev.append({"e": "settled", "n": e.get("outside_get", 64), "a": 0, "x": -1})
     if rec["outcome"] == "returned":
         ev.append({"e": "return", "n": 0, "a": 0, "x": -1})
     elif rec["outcome"] == "raised":
